@@ -2,6 +2,7 @@ package values
 
 import (
 	"fmt"
+	"math"
 	"reflect"
 	"strings"
 
@@ -108,6 +109,17 @@ func (v wrapperValue) Test() bool                { return v.value != nil && v.va
 func (v wrapperValue) Int() int {
 	if n, ok := v.value.(int); ok {
 		return n
+	}
+	// integers of the other widths
+	switch rv := reflect.ValueOf(v.value); rv.Kind() {
+	case reflect.Int8, reflect.Int16, reflect.Int32, reflect.Int64:
+		if n := rv.Int(); int64(int(n)) == n {
+			return int(n)
+		}
+	case reflect.Uint, reflect.Uint8, reflect.Uint16, reflect.Uint32, reflect.Uint64, reflect.Uintptr:
+		if n := rv.Uint(); n <= math.MaxInt {
+			return int(n)
+		}
 	}
 	panic(conversionError("", v.value, reflect.TypeOf(1)))
 }
